@@ -146,7 +146,11 @@ theorem C05_text_run_covers (off : Nat) (ts : List Tok) (h : Chain off ts) (he :
     over `metadata_entry`/`section` that ties them to the pushed event and accounts for `>>`, `:`,
     `=`), text blocks (`>`), and steps with components (needs the exact event span
     `[offset before the marker, offset after the body/note]`, which `SpansEv.lean` only bounds from
-    one side), and the lift from blocks to the whole input (`C05_lexed_tokens_reach_a_block`). -/
+    one side), and the lift from blocks to the whole input (`C05_lexed_tokens_reach_a_block`).
+    ALL OF THIS IS NOW PROVED BELOW: `C05_step_events_cover` (steps with components, every token
+    with a body), `C05_block_events_cover` (every block shape, content tokens),
+    `C05_metadata_entry_covers`, `C05_section_covers`, `C05_component_covers_consumed`,
+    `C05_input_tokens_covered` and `C05_conservation` (the whole input). -/
 theorem C05_events_cover_partial {α : Type} [Arith α] (cs : CharSpec) (ext : Ext) (oldStyle : Bool)
     (b : List Tok) (evs : Array (Ev α)) (hw : WF b) (hnm : NoMarkerTok b)
     (hhead : ∀ t, b.head? = some t → t.kind ≠ .metaStart ∧ t.kind ≠ .eq ∧ t.kind ≠ .textStep)
@@ -222,6 +226,27 @@ theorem C05_step_events_cover {α : Type} [Arith α] (cs : CharSpec) (ext : Ext)
     (t : Tok) (ht : t ∈ b) (hb : HasBody t) :
     CoveredBy (runBlock cs ext oldStyle b evs none).1 t :=
   runBlock_step_coverB cs ext oldStyle b evs hw hhead hnb t ht hb
+
+/-- **Metadata lines, key and value separately.**  When `metadata_entry`, run on a block of adjacent
+    tokens, returns an entry (it does so whenever the line starts with `>>` and has a `:` — an
+    empty key is an error and an empty value a warning, but the entry is still returned), the entry
+    is `Metadata key value` with: the first `:` of the line at some position `ci` (`MetaCovers`);
+    every content token before it inside the span of the KEY text, every content token after it
+    inside the span of the VALUE text; and `key.span.end ≤ ':' ≤ value.span.start`.  Only the `>>`
+    and the `:` are outside both. -/
+theorem C05_metadata_entry_covers {α : Type} [Arith α] (cs : CharSpec) (ext : Ext) (b : List Tok)
+    (evs : Array (Ev α)) (hw : WF b) (ev : Ev α)
+    (h : (metadataEntry (α := α) ⟨b, 0, ext, cs, evs, none⟩).1 = some ev) : MetaCovers cs b ev :=
+  metadataEntry_coverFine (cs := cs) (wf_wfi hw) (⟨rfl, rfl, rfl, Nat.zero_le _⟩ : G b ext _) rfl ev h
+
+/-- **Section lines.**  When `section` returns an event (no `section-invalid` warning: nothing but
+    blanks after the closing `=`), every content token of the line lies inside the span of the
+    section's name (`EvCovers`; so the name is present: `Section(Some name)`); the tokens outside
+    the name are `=`, whitespace and comments. -/
+theorem C05_section_covers {α : Type} [Arith α] (cs : CharSpec) (ext : Ext) (b : List Tok)
+    (evs : Array (Ev α)) (hw : WF b) (ev : Ev α)
+    (h : (sectionP (α := α) ⟨b, 0, ext, cs, evs, none⟩).1 = some ev) : EvCovers cs b ev :=
+  sectionP_coverAll (cs := cs) (wf_wfi hw) (⟨rfl, rfl, rfl, Nat.zero_le _⟩ : G b ext _) rfl rfl ev h
 
 /-- … and what earlier blocks put into the queue stays covered -/
 theorem C05_block_keeps_covered {α : Type} [Arith α] (cs : CharSpec) (ext : Ext) (oldStyle : Bool)
@@ -303,6 +328,11 @@ example : (pullEvents (α := Rat) toyCharSpec ⟨0⟩ "Mix @salt{1} -- c".toList
     [none, some ⟨0, 4⟩, some ⟨4, 12⟩, some ⟨12, 13⟩, none] := by decide +kernel
 example : InComment toyCharSpec "Mix @salt{1} -- c".toList 16 17 :=
   ⟨⟨.lineComment, "-- c".toList, 13⟩, by decide +kernel, Or.inl rfl, by decide, by decide⟩
+
+/-! `>> k: v`: the entry is returned; key span 2..4 (` k`), value span 5..7 (` v`) -/
+example : (match (metadataEntry (α := Rat) ⟨lex toyCharSpec ">> k: v".toList, 0, ⟨0⟩, toyCharSpec, #[], none⟩).1 with
+    | some (.metadata k v) => (k.span, v.span) == (⟨2, 4⟩, ⟨5, 7⟩)
+    | _ => false) = true := by decide +kernel
 
 /-! with front matter: the YAML text `t: x⏎` is the span 4..9 of the front-matter event, the section
     name ` A ` 14..17, the `>` text line `note` 21..25 -/
